@@ -286,6 +286,37 @@ Definition do_checkM (c : cfg) (r : option resp) : M bool :=
       end
   end.
 
+(* ---- the download directory (<code_cache>/downloads): download_to_path, inflate, check_hash.
+   Its files are not part of [disk] (the persisted state); a system call on them is a step that can be the point of
+   death or fail, and that leaves [disk] as it is.  What matters to the lifecycle is WHICH BYTES <n>.full holds when
+   check_hash reads it back and add_patch renames it into place. *)
+Definition dstep : M unit := mut (fun d => d) (fun _ d => d).
+(* the write performed when inflate's BufWriter is dropped at the end of the function: a failure is swallowed
+   (the same shape as a read step: nothing changes, and under FailAt the caller is NOT told) *)
+Definition dflush : M bool := rd.
+
+Fixpoint take (n : N) (l : bytes) : bytes :=
+  match l with
+  | [] => []
+  | x :: t => if n =? 0 then [] else x :: take (n - 1) t
+  end.
+(* io::copy hands full 8 KiB buffers to the file as it goes (errors propagate); the rest waits for the drop *)
+Definition flushed_prefix (out : bytes) : bytes := take (8192 * (blen out / 8192)) out.
+
+(* what <n>.full holds after download_to_path + inflate returned Ok *)
+Definition downloadM (bdl : bytes) : M bytes :=
+  dstep ;;;                 (* create_dir_all(downloads) when it does not exist yet *)
+  dstep ;;;                 (* File::create(downloads/<n>) (truncate) *)
+  dstep ;;;                 (* write_all of the downloaded bytes *)
+  dstep ;;;                 (* File::create(downloads/<n>.full) (truncate) *)
+  match inflate zdec base bdl with
+  | None => fail            (* bipatch::Reader::new or a read of the patch stream fails *)
+  | Some out =>
+      (if 8192 <=? blen out then dstep else ret tt) ;;;
+      ok <- dflush ;;
+      ret (if ok then out else flushed_prefix out)
+  end.
+
 Definition do_updateM (c : cfg) (r : option resp) (dl : option bytes) : M ustatus :=
   cs_copy_eventsM c ;;;
   cs_clear_eventsM c ;;;
@@ -305,10 +336,9 @@ Definition do_updateM (c : cfg) (r : option resp) (dl : option bytes) : M ustatu
                    match dl with
                    | None => fail
                    | Some bdl =>
-                       match inflate zdec base bdl with
-                       | None => fail
-                       | Some out => if hash_ok sha out (p_hash p) then cs_installM c p out else fail
-                       end
+                       (* check_hash re-reads <n>.full: the gate is on the FILE, and the file is what add_patch moves *)
+                       fileb <- downloadM bdl ;;
+                       if hash_ok sha fileb (p_hash p) then cs_installM c p fileb else fail
                    end
                end
            end
